@@ -38,6 +38,9 @@ HOT = [
     "http://example.com/p?q=1", "http://example.com/p#f", "https://example.com/", "http://u@example.com/", "http://u:@example.com/", "http://u:p@example.com/", "http://:p@example.com/",
     "http://exa mple/", "http://a%zzb/", "http://a%41b/", "http://A_b.é/", "http://é.com/", "http://xn--9ca.com/", "http://[::1]/", "http://[0:0:0:0:0:0:0:1]/", "http://[::1]:80/x",
     "http://[fe80::1%eth0]/", "http://127.0.0.1/", "foo://:80/", "foo://u@:80/", "//:", "//@", "//example.com", "//example.com/", "http://h/a%20b", "http://h/a b", "http://h/a+b?a+b=c+d",
+    # users/passwords that quote to NOTHING (lone surrogates are dropped), next to empty hosts and ports
+    "x://\ud800@/p", "//\udc00@/p", "//\ud800@:/p", "foo://\udc80:@/", "foo://\udc80:pw@h/", "http://\ud800@example.com/", "foo://u:\udc80@:81/", "//\udc80:\udc81@",
+    "http://XN--MNCHEN-3YA.DE/", "http://example.com.:80/", "foo://[::1]@example.com:8080/", "sqlite:////var/db", "mailto:", "tel:",
     "http://h/%2e%2E/x", "http://h/a/../x", "http://h/x", "http://h/?a=1&a=2", "http://h/?a=%FF", "http://a%20b:p@h/", "http://a b:p@h/", "mailto:u@h", "http:x", "a%3Ab", "a:b", "x/y", "/x/y",
 ]
 HOSTS = ["example.com", "EXAMPLE.com", "exa mple", "a%zzb", "a%41b", "A_b.é", "é.com", "xn--9ca.com", "::1", "0:0:0:0:0:0:0:1", "[::1]", "fe80::1%eth0", "127.0.0.1", "a_b", "h", "", "a/b", "a@b", "℀.com"]
@@ -223,6 +226,13 @@ class Program:
         k = r.random()
         if not self.pool or k < 0.16:
             s = r.choice(HOT)
+            if r.random() < 0.12:
+                # outside the hot set: the hostile URL-text generator (empty hosts, surrogates, odd ports, IDN, brackets ...)
+                if not hasattr(self, "_ug"):
+                    from ..gen import TextGen, URLGen
+
+                    self._ug = URLGen(r, TextGen(r, surrogates=True))
+                s = self._ug.url()[0]
             return {"op": "ctor", "s": s, "encoded": r.random() < 0.3}
         if k < 0.20:
             self.fresh += 1
